@@ -16,7 +16,11 @@ Inductive body :=
 
 Definition well_formed (b : body) : bool := match b with BJson _ => true | _ => false end.
 
-Record answer := { a_ok : bool (* status 200 *); a_body : body }.
+(* the Content-Length the response announces, relative to the body actually sent *)
+Inductive clen := CLHonest | CLUnknown (* -1: chunked *) | CLSmaller | CLLarger | CLNegative
+               | CLHuge.   (* beyond any allocation: 2^62 .. 2^63-1 *)
+
+Record answer := { a_ok : bool (* status 200 *); a_body : body; a_clen : clen }.
 
 Definition hschema (h : helper) : schema * bool :=
   match h with
@@ -36,7 +40,18 @@ Section Client.
   (* HttpRequest into a pointer to the helper's (non-nil) result pointer:
      None = the pointer was reset to nil by a JSON null.
      [guard] = HttpRequest refuses a null document (after F12). *)
-  Definition http_request (guard : bool) (h : helper) (a : answer) : result (option json) :=
+  (* [presize] = the body buffer is grown to the announced Content-Length before reading
+     (bytes.Buffer.Grow panics beyond the maximal allocation); the code reads with io.ReadAll *)
+  Definition read_body (presize : bool) (a : answer) : result unit :=
+    match a_clen a with
+    | CLHuge => if presize then Panic else Ok tt
+    | _ => Ok tt
+    end.
+
+  Definition http_request_from (presize guard : bool) (h : helper) (a : answer) : result (option json) :=
+    match read_body presize a with
+    | Panic => Panic
+    | _ =>
     if negb (a_ok a) then Err else        (* non-200: *oidc.Error or a plain error, always an error *)
     match a_body a with
     | BInvalid => Err
@@ -48,7 +63,10 @@ Section Client.
              | Err => Err
              | Panic => Panic
              end
+    end
     end.
+
+  Definition http_request := http_request_from false.
 
   Definition field (k : string) (j : json) : string :=
     match j with JObj ms => last_str k ms EmptyString | _ => EmptyString end.
